@@ -598,6 +598,17 @@ NnlsProblem make_nnls(const Json &d) {
 		// small integers: products and sums are exact, so ties and exact zeros are real
 		for (int k = 0; k < m0; k++) for (int j = 0; j < n; j++) p.M[(size_t)k * n + j] = (double)r.range(-3, 3);
 		for (int i = 0; i < n; i++) p.M[(size_t)(m0 + i) * n + i] = 1;     // ridge 1
+	} else if (kind == "consistent") {
+		// a consistent least-squares system: small non-negative integers (strongly correlated columns), y = M x* exactly
+		// with exact zeros in x*: zero residual, every multiplier zero - the fully degenerate optimum
+		for (int k = 0; k < m0; k++) for (int j = 0; j < n; j++) p.M[(size_t)k * n + j] = (double)r.below(4);
+		for (int j = 0; j < n; j++) p.M[(size_t)(j % m0) * n + j] += 2;
+		for (int i = 0; i < n; i++) p.M[(size_t)(m0 + i) * n + i] = 1;
+		std::vector<double> xs((size_t)n);
+		bool anyzero = false;
+		for (int j = 0; j < n; j++) { xs[(size_t)j] = r.chance(0.5) ? (double)r.range(1, 3) : 0.0; if (xs[(size_t)j] == 0) anyzero = true; }
+		if (!anyzero) xs[r.below((uint64_t)n)] = 0;
+		for (int k = 0; k < m; k++) { double sacc = 0; for (int j = 0; j < n; j++) sacc += p.M[(size_t)k * n + j] * xs[(size_t)j]; p.y[(size_t)k] = sacc; }
 	} else if (kind == "tspline") {
 		// design matrix of a monotone fit: smooth bumps times a lower-triangular ones matrix
 		for (int k = 0; k < m0; k++) for (int j = 0; j < n; j++) {
@@ -977,6 +988,7 @@ struct SchedHarness : Harness {
 			int n = 2 + (int)gen.below(9);
 			static const char *kinds[] = {"random", "random", "integer", "degenerate", "scaled", "sparse", "tspline", "tspline", "bumps", "bumps", "bumps", "tie", "tie2", "tie2"};
 			std::string kind = kinds[gen.below(14)];
+			{ Rng cs(runseed, "consistent_family"); if (cs.chance(0.06)) { kind = "consistent"; n = 3 + (int)cs.below(6); } }
 			if (kind == "tie2") n = 3 + (int)gen.below(5);
 			if (kind == "bumps" || (kind == "tspline" && gen.chance(0.5))) n = 6 + (int)gen.below(7);   // 6..12: room for multi-step active-set histories
 			if (kind == "sparse" && gen.chance(0.5)) n = 13 + (int)gen.below(28);   // beyond enumeration: KKT residual only
